@@ -143,6 +143,19 @@ def seed_xref() -> Tuple[Doc, Dict[str, Any]]:
     return d, {"root": cat, "info": info, "xref": "stream", "objstm": [f1.num, ln.num, cat.num, cat.num + 1, cat.num + 2, info.num], "trailer_extra": {"ID": [HexStr(b"0123456789abcdef"), HexStr(b"0123456789abcdef")]}}
 
 
+def seed_xrefidx() -> Tuple[Doc, Dict[str, Any]]:
+    """the xref-stream seed with a hole in the object numbers, so the generated cross-reference stream carries an explicit
+    /Index array of two subsections (as incrementally updated files do)"""
+    d = Doc()
+    f1 = d.add({"Type": N("Font"), "Subtype": N("Type1"), "BaseFont": N("Helvetica")})
+    hole1 = d.reserve()
+    cat = _skeleton(d, b"BT /F1 12 Tf 20 100 Td (Index) Tj ET", {"Font": {"F1": f1}})
+    hole2 = d.reserve()
+    info = d.add({"Title": b"idx"})
+    del d.objs[hole1.num], d.objs[hole2.num]  # never defined: these numbers are missing from the file
+    return d, {"root": cat, "info": info, "xref": "stream", "objstm": [f1.num, cat.num + 1]}
+
+
 JPEG = bytes.fromhex(
     "ffd8ffe000104a46494600010100000100010000ffdb004300080606070605080707070909080a0c140d0c0b0b0c1912130f141d1a1f1e1d1a1c1c20242e2720222c231c1c2837292c30313434341f27393d38323c2e333432"
     "ffc0000b080001000101011100ffc4001f0000010501010101010100000000000000000102030405060708090a0bffc400b5100002010303020403050504040000017d01020300041105122131410613516107227114328191a1082342b1c11552d1f02433627282090a161718191a25262728292a3435363738393a434445464748494a535455565758595a636465666768696a737475767778797a838485868788898a92939495969798999aa2a3a4a5a6a7a8a9aab2b3b4b5b6b7b8b9bac2c3c4c5c6c7c8c9cad2d3d4d5d6d7d8d9dae1e2e3e4e5e6e7e8e9eaf1f2f3f4f5f6f7f8f9faffda0008010100003f00fbfcffd9"
@@ -427,6 +440,7 @@ SEEDS = {
     "aes256": seed_aes256,
     "ttf": seed_ttf,
     "filters": seed_filters,
+    "xrefidx": seed_xrefidx,
 }
 
 
